@@ -1,2 +1,4 @@
 pub mod history;
 pub mod c01;
+pub mod structural;
+pub mod fault;
